@@ -143,7 +143,7 @@ theorem RelF.withVars_congr {m : Nat → Nat} {s : St} {rs : Ref.St} {fr : Nat} 
     · rw [if_neg hc'] at hf
       exact h.par i f (by rw [withVars_frames_get, if_neg hc']; exact hf) p hp
   · exact hfc.transfer (s := s) (s' := s) (withVars rs fr fr0 vb).frames.length (fun _ _ => rfl) hext (FnsKeep.of_fns_eq rfl)
-      (fun e he => Nat.lt_trans (hc.k_lt e he) hc.lt) rfl
+      (Nat.le_of_eq h.len) (Nat.le_refl _) (fun e he => Nat.lt_trans (hc.k_lt e he) hc.lt) rfl
   · intro name hn
     exact ⟨by rw [hkey]; exact (h.globals name hn).1, fun i hi => by rw [hkey]; exact (h.globals name hn).2 i hi⟩
 
